@@ -1189,6 +1189,183 @@ impl Family for ResultsetsBetween {
     }
 }
 
+/// temporal values at the edges of what chrono and std can hold but the protocol cannot: nanoseconds
+/// below a microsecond (truncated or rounded - with the carry - but never out of range), chrono's
+/// leap-second representation (second 59 with 10^9 or more nanoseconds: MySQL has no second 60),
+/// durations of 2^32 days and more. Text and binary seam: the value is refused, or what the client
+/// decodes is a legal value equal to the written one up to the microsecond.
+pub struct TemporalEdges {
+    pub bin: bool,
+}
+impl TemporalEdges {
+    fn datetimes() -> Vec<chrono::NaiveDateTime> {
+        let mut v = Vec::new();
+        for (y, mo, d) in [(2024, 2, 29), (2016, 12, 31), (1999, 12, 31)] {
+            let day = NaiveDate::from_ymd_opt(y, mo, d).unwrap();
+            for (h, mi, s) in [(23u32, 59u32, 59u32), (0, 0, 0), (12, 34, 56)] {
+                for ns in [1u32, 499, 500, 999, 1_000, 1_499, 1_500, 999_999_000, 999_999_499, 999_999_500, 999_999_999, 1_000_000_000, 1_000_000_001, 1_500_000_000, 1_999_999_999] {
+                    if let Some(t) = day.and_hms_nano_opt(h, mi, s, ns) {
+                        v.push(t);
+                    }
+                }
+            }
+        }
+        v
+    }
+    fn durations() -> Vec<Duration> {
+        let day = 86_400u64;
+        let mut v = vec![Duration::new(5, 1), Duration::new(5, 499), Duration::new(5, 500), Duration::new(5, 999_999_499), Duration::new(5, 999_999_500), Duration::new(5, 999_999_999), Duration::new(34 * day + 86_399, 999_999_999)];
+        for k in [1u64, 2, 3] {
+            for extra in [0u64, 3 * day + 4 * 3600 + 5 * 60 + 6, 34 * day] {
+                v.push(Duration::new((k << 32) * day + extra, 7_000));
+            }
+        }
+        v.push(Duration::new(u64::MAX, 0));
+        v.push(Duration::new(u64::MAX - 86_399, 999_999_999));
+        v.push(Duration::new((1 << 32) * 3600, 0));
+        v.push(Duration::new(1 << 32, 0));
+        v
+    }
+}
+impl Family for TemporalEdges {
+    fn name(&self) -> String {
+        format!("temporal-values-the-protocol-cannot-carry-{}", if self.bin { "binary" } else { "text" })
+    }
+    fn len(&self) -> u64 {
+        1
+    }
+    fn run(&self, _idx: u64, st: &mut Stats) -> Result<(), Violation> {
+        use chrono::Timelike;
+        let bin = self.bin;
+        st.nontrivial += 1;
+        let mut n = 0u64;
+        // (total microseconds since midnight / since zero) a decoded value may stand for
+        let allowed = |secs: u64, ns: u32| -> Vec<u64> {
+            let trunc = secs * 1_000_000 + (ns / 1_000) as u64;
+            vec![trunc, trunc + if ns % 1_000 >= 500 { 1 } else { 0 }]
+        };
+        for t in Self::datetimes() {
+            n += 1;
+            let what = format!("{:?} ({} ns) as {}", t, t.nanosecond(), if bin { "binary DATETIME" } else { "text" });
+            let leap = t.nanosecond() >= 1_000_000_000;
+            let day_secs = (t.hour() * 3600 + t.minute() * 60 + t.second()) as u64;
+            let mut buf = Vec::new();
+            let r = guarded(|| if bin { t.to_mysql_bin(&mut buf, &col("c", ColumnType::MYSQL_TYPE_DATETIME, ColumnFlags::empty())) } else { t.to_mysql_text(&mut buf) });
+            match r {
+                Err((l, m)) => return Err(Violation::new(panic_key(&l, &m), format!("{}: panicked at {}: {}", what, l, m))),
+                Ok(Err(_)) => {
+                    // refusing is always allowed for what the protocol cannot carry; a plain value must be accepted
+                    if !leap && t.nanosecond() % 1_000 == 0 {
+                        return Err(Violation::new("temporal-refused", format!("{}: refused", what)));
+                    }
+                    st.bump("temporal_edges_refused");
+                }
+                Ok(Ok(())) => {
+                    // a second 60 does not exist in MySQL: whatever is sent for a leap second is another value
+                    if leap {
+                        return Err(Violation::new("leap-second-encoded-as-something-else", format!("{}: accepted, bytes {:02x?}", what, &buf[..buf.len().min(32)])));
+                    }
+                    let (date_ok, us_of_day) = if bin {
+                        let mut cur = Cur::new(&buf);
+                        match parse_bin_value(&mut cur, 0x0c, 0).map_err(|e| Violation::new("temporal-undecodable", format!("{}: {}", what, e)))? {
+                            BinVal::Date(_, y, mo, d, h, mi, s, us) if cur.left() == 0 => ((y as i32, mo as u32, d as u32), (h as u64 * 3600 + mi as u64 * 60 + s as u64) * 1_000_000 + us as u64),
+                            other => return Err(Violation::new("temporal-undecodable", format!("{}: decodes to {:?} with {} bytes left", what, other, cur.left()))),
+                        }
+                    } else {
+                        let cell = parse_text_row(&buf, 1).map_err(|e| Violation::new("temporal-undecodable", format!("{}: {}", what, e)))?;
+                        let txt = match &cell[0] {
+                            Cell::Text(t) => String::from_utf8_lossy(t).to_string(),
+                            other => return Err(Violation::new("temporal-undecodable", format!("{}: {:?}", what, other))),
+                        };
+                        // YYYY-MM-DD HH:MM:SS[.ffffff]
+                        let parsed = (|| -> Option<((i32, u32, u32), u64)> {
+                            let (d, tm) = txt.split_once(' ')?;
+                            let mut dp = d.split('-');
+                            let ymd = (dp.next()?.parse().ok()?, dp.next()?.parse().ok()?, dp.next()?.parse().ok()?);
+                            let (hms, frac) = match tm.split_once('.') {
+                                Some((a, f)) => (a, f),
+                                None => (tm, ""),
+                            };
+                            if frac.len() > 6 || !frac.bytes().all(|b| b.is_ascii_digit()) {
+                                return None;
+                            }
+                            let mut tp = hms.split(':');
+                            let (h, mi, s): (u64, u64, u64) = (tp.next()?.parse().ok()?, tp.next()?.parse().ok()?, tp.next()?.parse().ok()?);
+                            if h > 23 || mi > 59 || s > 59 {
+                                return None;
+                            }
+                            let us: u64 = format!("{:0<6}", frac).parse().ok()?;
+                            Some((ymd, (h * 3600 + mi * 60 + s) * 1_000_000 + us))
+                        })();
+                        match parsed {
+                            Some(p) => p,
+                            None => return Err(Violation::new("temporal-text-malformed", format!("{}: the client cannot read {:?} as a datetime", what, txt))),
+                        }
+                    };
+                    use chrono::Datelike;
+                    let want_date = (t.year(), t.month(), t.day());
+                    let ok_us = allowed(day_secs, t.nanosecond());
+                    // rounding up at 23:59:59.9999995 would carry into the next day: truncation is then the only same-day answer
+                    if date_ok != want_date || !ok_us.contains(&us_of_day) {
+                        return Err(Violation::new("temporal-differs", format!("{}: the client decodes {:?} and {} microseconds into the day", what, date_ok, us_of_day)));
+                    }
+                }
+            }
+        }
+        for d in Self::durations() {
+            n += 1;
+            let what = format!("Duration {{ secs: {}, nanos: {} }} as {}", d.as_secs(), d.subsec_nanos(), if bin { "binary TIME" } else { "text" });
+            let representable = d.as_secs() < 35 * 86_400;
+            let mut buf = Vec::new();
+            let r = guarded(|| if bin { d.to_mysql_bin(&mut buf, &col("c", ColumnType::MYSQL_TYPE_TIME, ColumnFlags::empty())) } else { d.to_mysql_text(&mut buf) });
+            match r {
+                Err((l, m)) => {
+                    // a panic counts as a refusal for values far outside the range, not for plain ones
+                    if representable {
+                        return Err(Violation::new(panic_key(&l, &m), format!("{}: panicked at {}: {}", what, l, m)));
+                    }
+                    st.bump("temporal_edges_refused");
+                }
+                Ok(Err(_)) => {
+                    if representable && d.subsec_nanos() % 1_000 == 0 {
+                        return Err(Violation::new("temporal-refused", format!("{}: refused", what)));
+                    }
+                    st.bump("temporal_edges_refused");
+                }
+                Ok(Ok(())) => {
+                    let total_us = if bin {
+                        let mut cur = Cur::new(&buf);
+                        match parse_bin_value(&mut cur, 0x0b, 0).map_err(|e| Violation::new("temporal-undecodable", format!("{}: {}", what, e)))? {
+                            BinVal::Time(_, false, days, h, m, s, us) if cur.left() == 0 => ((days as u64 * 24 + h as u64) * 3600 + m as u64 * 60 + s as u64) as u128 * 1_000_000 + us as u128,
+                            other => return Err(Violation::new("temporal-undecodable", format!("{}: decodes to {:?}", what, other))),
+                        }
+                    } else {
+                        let cell = parse_text_row(&buf, 1).map_err(|e| Violation::new("temporal-undecodable", format!("{}: {}", what, e)))?;
+                        let txt = match &cell[0] {
+                            Cell::Text(t) => t.clone(),
+                            other => return Err(Violation::new("temporal-undecodable", format!("{}: {:?}", what, other))),
+                        };
+                        match super::c06::parse_time(&txt) {
+                            Some((h, m, s, us)) => (h as u128 * 3600 + m as u128 * 60 + s as u128) * 1_000_000 + us as u128,
+                            None => return Err(Violation::new("temporal-text-malformed", format!("{}: the client cannot read {:?} as a time", what, String::from_utf8_lossy(&txt)))),
+                        }
+                    };
+                    let ok: Vec<u128> = allowed(0, d.subsec_nanos()).iter().map(|x| d.as_secs() as u128 * 1_000_000 + *x as u128).collect();
+                    if !ok.contains(&total_us) {
+                        return Err(Violation::new("temporal-differs", format!("{}: accepted, the client decodes {} microseconds", what, total_us)));
+                    }
+                }
+            }
+        }
+        st.add("temporal_edges", n);
+        st.evals += n.saturating_sub(1);
+        Ok(())
+    }
+    fn describe(&self, _idx: u64) -> J {
+        json!({"seam": if self.bin { "to_mysql_bin" } else { "to_mysql_text" }, "values": "sub-microsecond nanoseconds, leap seconds, durations of 2^32 days and more"})
+    }
+}
+
 pub fn build(quick: bool) -> Check {
     let mut ns: Vec<usize> = (13..=70).collect();
     ns.extend([127, 128, 129, 255, 256, 257, 300, 511, 512, 513, 1000]);
@@ -1198,12 +1375,12 @@ pub fn build(quick: bool) -> Check {
     Check {
         id: "C07",
         level: "model_checking",
-        rule: format!("binary resultsets through the real run_on, decoded from the advertised column definitions by refwire and cell by cell by mysql_common's BinValue: column counts 1..{} x all 2^n NULL patterns (three rows: pattern, complement, pattern) with 12 cycling column types of different widths; column counts up to 1000 with structured patterns (none, all, every single NULL / non-NULL, alternations, prefixes/suffixes ending around every multiple of 8); NULL into NOT NULL for all patterns of <= 6 columns x 4 flag placements; the matrix of {} value sources x all 31 column types x signedness x NOT NULL; at the to_mysql_bin seam every second of 0..838:59:59 x 3 microsecond values as TIME, every calendar date of years 0..9999 as DATE, every second of a day x 3 microsecond values as DATETIME, 22 microsecond values of every decimal shape at midnight and other times and at day boundaries of TIME; a refused cell (NULL into NOT NULL, wrong type, out of range, invalid generic date/time) at each column followed by a replacement value; rows built partly by write_col and partly by write_row over columns of different width and signedness, every split point, with values that fit a neighbouring column but not their own. Oracle: decoded cells equal the written values, bitmap bits = NULL cells exactly, natural pairings accepted, anything accepted is exact, mismatches refused without emitting undecodable output. Binary resultsets of 2 and 10 columns exactly N exchanges apart (N = 0, 1, 254..257, 65534..65537; thorough: more) with text resultsets, completions or zero-column sets in between. Very many rows: one binary resultset of 4097 / 8193 / 16385 / 65537 (thorough: up to 300000) rows of 3 and 10 columns, first row long, NULLs and values moving with the row number, every row compared. Values in context: every sequence of <= 3 (thorough: 4) events on one connection (rows of other shapes incl. all-NULL / alternating NULLs / 300- and 70000-byte cells, a refused cell, a new resultset behind finish_one with the same or other columns, behind a completion, behind a zero-column set, a new command in the same or the other protocol, finish_error) followed by a probe row of characteristic values for nine column types; every row of the conversation must decode cell for cell to what was written. Non-trivial = bitmap crosses a byte boundary or a type pairing the unit tests never make.", if quick {12} else {14}, value_palette().len()),
+        rule: format!("binary resultsets through the real run_on, decoded from the advertised column definitions by refwire and cell by cell by mysql_common's BinValue: column counts 1..{} x all 2^n NULL patterns (three rows: pattern, complement, pattern) with 12 cycling column types of different widths; column counts up to 1000 with structured patterns (none, all, every single NULL / non-NULL, alternations, prefixes/suffixes ending around every multiple of 8); NULL into NOT NULL for all patterns of <= 6 columns x 4 flag placements; the matrix of {} value sources x all 31 column types x signedness x NOT NULL; at the to_mysql_bin seam every second of 0..838:59:59 x 3 microsecond values as TIME, every calendar date of years 0..9999 as DATE, every second of a day x 3 microsecond values as DATETIME, 22 microsecond values of every decimal shape at midnight and other times and at day boundaries of TIME; a refused cell (NULL into NOT NULL, wrong type, out of range, invalid generic date/time) at each column followed by a replacement value; rows built partly by write_col and partly by write_row over columns of different width and signedness, every split point, with values that fit a neighbouring column but not their own. Oracle: decoded cells equal the written values, bitmap bits = NULL cells exactly, natural pairings accepted, anything accepted is exact, mismatches refused without emitting undecodable output. Temporal values the protocol cannot carry (nanoseconds below a microsecond, chrono's leap second, durations of 2^32 days and more): refused, or decoded to a legal value equal to the written one up to the microsecond. Binary resultsets of 2 and 10 columns exactly N exchanges apart (N = 0, 1, 254..257, 65534..65537; thorough: more) with text resultsets, completions or zero-column sets in between. Very many rows: one binary resultset of 4097 / 8193 / 16385 / 65537 (thorough: up to 300000) rows of 3 and 10 columns, first row long, NULLs and values moving with the row number, every row compared. Values in context: every sequence of <= 3 (thorough: 4) events on one connection (rows of other shapes incl. all-NULL / alternating NULLs / 300- and 70000-byte cells, a refused cell, a new resultset behind finish_one with the same or other columns, behind a completion, behind a zero-column set, a new command in the same or the other protocol, finish_error) followed by a probe row of characteristic values for nine column types; every row of the conversation must decode cell for cell to what was written. Non-trivial = bitmap crosses a byte boundary or a type pairing the unit tests never make.", if quick {12} else {14}, value_palette().len()),
         assumptions: vec!["integer range rules are C15's; here an accepted integer must be exact".into()],
         bounds: json!({"exhaustive_null_patterns_up_to_columns": if quick {12} else {14}, "max_columns": 1000}),
         exhaustive: true,
         caps_hit: vec![],
-        families: vec![Box::new(AllPatterns { max_n: if quick { 12 } else { 14 } }), Box::new(Structured { ns }), Box::new(NotNull), Box::new(TypeMatrix { vals: value_palette() }), Box::new(TemporalBin), Box::new(Recover), Box::new(MixedRows), Box::new(super::aftermath::Aftermath { prop: "C07" }), Box::new(ResultsetsBetween { ns: if quick { vec![0, 1, 254, 255, 256, 257, 65_534, 65_535, 65_536, 65_537] } else { vec![0, 1, 2, 126, 127, 128, 254, 255, 256, 257, 511, 512, 4095, 4096, 32_767, 32_768, 65_533, 65_534, 65_535, 65_536, 65_537, 131_071, 131_072] } }), Box::new(ManyRows { ns: if quick { vec![4097, 8193, 16385, 65537] } else { vec![255, 257, 4095, 4097, 8193, 16385, 32769, 65535, 65537, 131073, 300000] } }), Box::new(super::context::ContextWalks { prop: "C07", depth: 1, start_bin: true }), Box::new(super::context::ContextWalks { prop: "C07", depth: 2, start_bin: true }), Box::new(super::context::ContextWalks { prop: "C07", depth: 3, start_bin: true }), Box::new(super::context::ContextWalks { prop: "C07", depth: if quick { 0 } else { 4 }, start_bin: true })],
-        required: vec!["many_rows", "resultsets_between", "context_walks", "mixed_rows", "mixed_rows_trap_refused", "aftermath_recovered", "bitmaps_crossing_a_byte", "structured_patterns", "null_into_not_null", "matrix_refused", "matrix_accepted", "binary_durations", "binary_dates", "binary_times_of_day", "recoveries"],
+        families: vec![Box::new(AllPatterns { max_n: if quick { 12 } else { 14 } }), Box::new(Structured { ns }), Box::new(NotNull), Box::new(TypeMatrix { vals: value_palette() }), Box::new(TemporalBin), Box::new(Recover), Box::new(MixedRows), Box::new(super::aftermath::Aftermath { prop: "C07" }), Box::new(TemporalEdges { bin: true }), Box::new(ResultsetsBetween { ns: if quick { vec![0, 1, 254, 255, 256, 257, 65_534, 65_535, 65_536, 65_537] } else { vec![0, 1, 2, 126, 127, 128, 254, 255, 256, 257, 511, 512, 4095, 4096, 32_767, 32_768, 65_533, 65_534, 65_535, 65_536, 65_537, 131_071, 131_072] } }), Box::new(ManyRows { ns: if quick { vec![4097, 8193, 16385, 65537] } else { vec![255, 257, 4095, 4097, 8193, 16385, 32769, 65535, 65537, 131073, 300000] } }), Box::new(super::context::ContextWalks { prop: "C07", depth: 1, start_bin: true }), Box::new(super::context::ContextWalks { prop: "C07", depth: 2, start_bin: true }), Box::new(super::context::ContextWalks { prop: "C07", depth: 3, start_bin: true }), Box::new(super::context::ContextWalks { prop: "C07", depth: if quick { 0 } else { 4 }, start_bin: true })],
+        required: vec!["many_rows", "temporal_edges", "resultsets_between", "context_walks", "mixed_rows", "mixed_rows_trap_refused", "aftermath_recovered", "bitmaps_crossing_a_byte", "structured_patterns", "null_into_not_null", "matrix_refused", "matrix_accepted", "binary_durations", "binary_dates", "binary_times_of_day", "recoveries"],
     }
 }
